@@ -49,6 +49,15 @@ def program(row, n="{N}"):
     return decls, [f"inner{n}(7, 2, 2.5)"]
 
 
+def has_paren_exponent(e):
+    """does the expression contain `x ** (...)` anywhere (the documentation does not say whether a parenthesised literal is a literal)"""
+    if not isinstance(e, dict):
+        return False
+    if e.get("k") == "bin" and e.get("op") == "**" and e["r"].get("k") == "paren":
+        return True
+    return any(has_paren_exponent(v) for v in e.values() if isinstance(v, dict))
+
+
 def expected_value(row):
     if not row["val"]:
         return None
@@ -63,7 +72,8 @@ def run(ctx):
     common.require_tlc_ok(ctx, res, "GenNum")
     rows = res["cases"]["CASE"]
     if len(rows) > 40000:
-        d1 = [r for r in rows if r["e"]["l"]["k"] != "bin" and r["e"]["r"]["k"] not in ("bin",) and r["e"]["l"]["k"] != "paren"]
+        d1 = [r for r in rows if r["e"]["k"] != "bin" or
+              (r["e"]["l"]["k"] != "bin" and r["e"]["r"]["k"] not in ("bin",) and r["e"]["l"]["k"] != "paren")]
         rows = d1 + rnd.sample([r for r in rows if r not in d1][:200000], 30000) if len(d1) < 10000 else rnd.sample(rows, 40000)
     # ---------------------------------------------------------------- consumer 1: the policy function itself
     seen = set()
@@ -107,7 +117,7 @@ def run(ctx):
             raise ToolError(f"rendered C07 program does not parse: {ob.get('errs')}\n{q['src']}")
         real_ok = bool(ob.get("ok"))
         tags = r["feats"] + ["pos:" + r["pos"]] + (["compound:" + r["cop"] + "="] if r["pos"].startswith("compound-") else []) + (["compound-needs-grouping"] if r.get("cgroup") else [])
-        if r["parenexp"]:
+        if r["parenexp"] or has_paren_exponent(r["e"]):
             # `x ** (2)`: the documentation does not say whether a parenthesised literal is "a literal";
             # the spec does not decide it - only agreement of the consumers (accepted => builds) is demanded
             if real_ok and not r["pos"].startswith("arg-"):
